@@ -252,6 +252,14 @@ func unpackMain() int {
 	defer arena.RemoveAll(base)
 	if unpriv {
 		os.Chmod(base, 0755)
+		if why := uwPrepare(base); why != "" {
+			// this environment cannot run a process under another user id: nothing is replayed, and the
+			// orchestrator records the stage as skipped (the privileged stages are unaffected)
+			io.Copy(io.Discard, os.Stdin)
+			b, _ := json.Marshal(map[string]interface{}{"family": "unpack", "skipped": why, "total": 0, "agree": 0, "mismatch": 0, "nontrivial": 0, "infra": 0})
+			fmt.Printf("@@RESULT %s\n", b)
+			return 0
+		}
 	}
 	acc := cases.NewAcc("unpack", *flagMis)
 	var hdr *uHeader
